@@ -1335,40 +1335,37 @@ def dcamTags : List Str :=
   [cs!"ConfRom", cs!"TextDesc", cs!"IntKey", cs!"AdvFeatureLock", cs!"SmartFeature"]
 
 mutual
-/-- `impl Parse for Vec<NodeData>` on one element (`fuel` bounds `Group` nesting; it is
-the depth of the tree, so it is never exhausted). -/
+/-- `impl Parse for Vec<NodeData>`, running on the element's own cursor (`attrs`, `children`
+are the element's; `fuel` bounds `Group` nesting: it is the depth of the tree, so it is never
+exhausted). -/
 def pNodeDatas (pr : Profile) (fuel : Nat) (tag : Str) (attrs : List (Str × Str))
     (children : List Elem) : P F (List (NodeData F)) :=
   match fuel with
   | 0 => P.fail
   | fuel + 1 =>
-    if tag = cs!"Node" then do return [.node (← onChild children (pPlainNode attrs))]
-    else if tag = cs!"Category" then do return [.category (← onChild children (pCategory attrs))]
-    else if tag = cs!"Integer" then do return [.integer (← onChild children (pInteger attrs))]
-    else if tag = cs!"IntReg" then do return [.intReg (← onChild children (pIntReg pr attrs))]
-    else if tag = cs!"MaskedIntReg" then do
-      return [.maskedIntReg (← onChild children (pMaskedIntReg pr attrs))]
-    else if tag = cs!"Boolean" then do return [.boolean (← onChild children (pBoolean attrs))]
-    else if tag = cs!"Command" then do return [.command (← onChild children (pCommand attrs))]
-    else if tag = cs!"Enumeration" then do
-      return [.enumeration (← onChild children (pEnumeration pr attrs))]
-    else if tag = cs!"Float" then do return [.float (← onChild children (pFloat attrs))]
-    else if tag = cs!"FloatReg" then do return [.floatReg (← onChild children (pFloatReg pr attrs))]
-    else if tag = cs!"String" then do return [.string (← onChild children (pStringNode attrs))]
-    else if tag = cs!"StringReg" then do return [.stringReg (← onChild children (pPlainReg pr attrs))]
-    else if tag = cs!"Register" then do return [.register (← onChild children (pPlainReg pr attrs))]
-    else if tag = cs!"Converter" then do return [.converter (← onChild children (pConverter attrs))]
-    else if tag = cs!"IntConverter" then do
-      return [.intConverter (← onChild children (pIntConverter attrs))]
-    else if tag = cs!"SwissKnife" then do return [.swissKnife (← onChild children (pSwissKnife attrs))]
-    else if tag = cs!"IntSwissKnife" then do
-      return [.intSwissKnife (← onChild children (pIntSwissKnife attrs))]
-    else if tag = cs!"Port" then do return [.port (← onChild children (pPort attrs))]
+    if tag = cs!"Node" then do return [.node (← pPlainNode attrs)]
+    else if tag = cs!"Category" then do return [.category (← pCategory attrs)]
+    else if tag = cs!"Integer" then do return [.integer (← pInteger attrs)]
+    else if tag = cs!"IntReg" then do return [.intReg (← pIntReg pr attrs)]
+    else if tag = cs!"MaskedIntReg" then do return [.maskedIntReg (← pMaskedIntReg pr attrs)]
+    else if tag = cs!"Boolean" then do return [.boolean (← pBoolean attrs)]
+    else if tag = cs!"Command" then do return [.command (← pCommand attrs)]
+    else if tag = cs!"Enumeration" then do return [.enumeration (← pEnumeration pr attrs)]
+    else if tag = cs!"Float" then do return [.float (← pFloat attrs)]
+    else if tag = cs!"FloatReg" then do return [.floatReg (← pFloatReg pr attrs)]
+    else if tag = cs!"String" then do return [.string (← pStringNode attrs)]
+    else if tag = cs!"StringReg" then do return [.stringReg (← pPlainReg pr attrs)]
+    else if tag = cs!"Register" then do return [.register (← pPlainReg pr attrs)]
+    else if tag = cs!"Converter" then do return [.converter (← pConverter attrs)]
+    else if tag = cs!"IntConverter" then do return [.intConverter (← pIntConverter attrs)]
+    else if tag = cs!"SwissKnife" then do return [.swissKnife (← pSwissKnife attrs)]
+    else if tag = cs!"IntSwissKnife" then do return [.intSwissKnife (← pIntSwissKnife attrs)]
+    else if tag = cs!"Port" then do return [.port (← pPort attrs)]
     else if tag = cs!"StructReg" then do
-      let s ← onChild children (pStructReg pr)
+      let s ← pStructReg pr
       let ms ← intoMaskedIntRegs s s.entries
       return ms.map .maskedIntReg
-    else if tag = cs!"Group" then onChild children (pGroupChildren pr fuel (children.length + 1))
+    else if tag = cs!"Group" then pGroupChildren pr fuel (children.length + 1)
     else P.fail  -- DCAM tags: `todo!()`, anything else: `unreachable!()`
 
 /-- `GroupNode::parse`: `while let Some(child) = node.next()` collecting all node data -/
@@ -1377,7 +1374,7 @@ def pGroupChildren (pr : Profile) (fuel : Nat) : Nat → P F (List (NodeData F))
   | n + 1 => do
     match ← next with
     | some (tag, attrs, children) =>
-      let ds ← pNodeDatas pr fuel tag attrs children
+      let ds ← onChild children (pNodeDatas pr fuel tag attrs children)
       let rest ← pGroupChildren pr fuel n
       return ds ++ rest
     | none => return []
@@ -1411,7 +1408,7 @@ def pTopLevel (pr : Profile) (depth : Nat) : Nat → P F Unit
   | n + 1 => do
     match ← next with
     | some (tag, attrs, children) =>
-      let ds ← pNodeDatas pr depth tag attrs children
+      let ds ← onChild children (pNodeDatas pr depth tag attrs children)
       storeNodes pr ds
       pTopLevel pr depth n
     | none => return ()
